@@ -14,7 +14,7 @@ RULE = ("a valid input set for every command (snps, closest, updown list, updown
         "applied to each applicable input file at the first, a middle and the last record: unequal row length (longer, shorter, or a header with no sequence at all), non-IUPAC "
         "symbol, empty file, missing file, header-less/empty SAM, reference vs alignment width, query vs target width, two "
         "records in --reference, empty CSV, CSV that is not updown list output, window outside 1..reference length and "
-        "start > end, unrecognised annotation suffix, a reference of another length than the annotation or a gff with two ##sequence-region lines (variants and sam variants), no size/dist option, and each invalid topranking file next to a header-only (valid, zero-row) CSV on the other side. Every run is the built binary under a timeout; "
+        "start > end, unrecognised annotation suffix, a reference of another length than the annotation or a gff with two ##sequence-region lines (variants and sam variants), a --reference of another length than the SAM header gives (sam toPairAlign, sam variants), no size/dist option, and each invalid topranking file next to a header-only (valid, zero-row) CSV on the other side. Every run is the built binary under a timeout; "
         "the verdict is the exit status: 0 or a timeout is a violation. Non-trivial: every corrupted run. Distinct by (command, "
         "file, corruption, position).")
 ASSUMPTIONS = ["exit status 2 (Go panic) counts as a refusal with a non-zero exit; C16 separately demands that the FASTA readers never panic",
@@ -177,6 +177,12 @@ def check(ctx):
             for extra in ([], ["--aggregate"], ["-t", "3"]):
                 runs.append(("variants (reference from the %s annotation) %s: alignment 3 columns wider" % (an, " ".join(extra)), ["variants", "--msa", wide_nr, "-a", ap_] + extra, None))
                 runs.append(("variants (reference from the %s annotation) %s: alignment 3 columns narrower" % (an, " ".join(extra)), ["variants", "--msa", narrow_nr, "-a", ap_] + extra, None))
+        # the --reference given with a SAM file has to be the sequence the SAM header describes (@SQ LN)
+        gff_noreg = W("anno_noregion.gff", anno.render_gff(genome, S["feats"], seqregion=False))
+        for what, rf in (("3 bases longer", longref), ("3 bases shorter", shortref)):
+            runs.append(("sam toPairAlign: --reference %s than the @SQ line says" % what, sub(base["topa"], ref, rf), None))
+            runs.append(("sam toPairAlign -o stdout: --reference %s than the @SQ line says" % what, ["sam", "toPairAlign", "-s", samp, "-r", rf, "-o", "stdout"], None))
+            runs.append(("sam variants: --reference %s than the @SQ line says (gff without ##sequence-region)" % what, ["sam", "variants", "-s", samp, "-r", rf, "-a", gff_noreg], None))
         tworeg = W("tworegions.gff", open(gff, "rb").read().replace(b"##sequence-region", b"##sequence-region other 1 99\n##sequence-region", 1))
         runs.append(("variants: two ##sequence-region lines in the gff", sub(base["variants gff"], gff, tworeg), None))
         runs.append(("sam variants: two ##sequence-region lines in the gff", sub(base["sam variants"], gff, tworeg), None))
